@@ -126,6 +126,10 @@ func Run(ctx *common.Ctx) int {
 			if w.Name == "Period" {
 				unis = append(unis, "1", "2", "3")
 			}
+			if si == 0 && (w.Name == "PowerOn" || (w.Name == "Factory" && !quick)) {
+				// every byte its own Read: 125000 Read calls per sample
+				unis = append(unis, "1", "2")
+			}
 			for _, u := range unis {
 				jobs = append(jobs, seqJob{w, sc, history{Uni: u}})
 			}
